@@ -422,6 +422,7 @@ func (w *W) resetPath(prefix []Decision) {
 	w.nondets = nil
 	w.asserts = nil
 	w.reaches = nil
+	w.obsTerms = nil
 	w.observes = nil
 	w.steps = 0
 	w.depth = 0
@@ -474,6 +475,18 @@ func (w *W) runPath(fn *ssa.Function, prefix []Decision) (ps PathSummary, assert
 			if r := w.S.Check(); r == smt.Sat {
 				if m, err := w.S.Model(w.nondetTerms()); err == nil {
 					ps.Witness = w.modelStrings(m)
+					// observed values under this witness
+					for i, o := range w.obsTerms {
+						if o == nil {
+							continue
+						}
+						v := smt.Eval(w.C, o, m)
+						if v == nil {
+							ps.Reaches[i] += "?"
+						} else {
+							ps.Reaches[i] += v.String()
+						}
+					}
 				}
 			} else if r == smt.Unsat {
 				ps.Status = "infeasible"
